@@ -49,6 +49,16 @@ def codesOut (cs : List Int) : String :=
   | none => oob
   | some s => s!"s={lenHex s} {convOut s}"
 
+def faultName : Fault → String
+  | .oobRead => "oob-read" | .oobWrite => "oob-write" | .overtake => "overtake"
+
+/-- offset and capacity as the harness observes them, then the content after `fixW()` -/
+def fixOut (size0 len : Nat) (_us : List Int) (r : Except Fault (List UInt8)) : String :=
+  let cap := capOf (sizeResize size0 (datawNeed len))
+  match r with
+  | .ok out => s!"off={wideOffset len} cap={cap} {lenHex out}"
+  | .error f => s!"fault {faultName f}"
+
 def fnv (h : UInt64) (s : String) : UInt64 :=
   s.toUTF8.foldl (fun h b => (h ^^^ b.toUInt64) * 1099511628211) h
 
@@ -103,6 +113,15 @@ def step (_ : Unit) (ts : List String) : Unit × String :=
       | some cs => codesOut cs | none => "bad-op"
     | ["code", c] => match c.toInt? with
       | some c => orOob ((fromCode c).map lenHex) | none => "bad-op"
+    | ["fixw", h, us] => match unhex h, ints us with
+      | some b, some us => fixOut (sizeInit b.length) b.length us (fixwOp b.length us)
+      | _, _ => "bad-op"
+    | ["safe", n, us] => match n.toNat?, ints us with
+      | some n, some us => fixOut (sizeResize 0 (3 * (n % 64))) (3 * (n % 64)) us (safeOp (n % 64) us)
+      | _, _ => "bad-op"
+    | ["warr", us] => match ints us with
+      | some us => orOob ((fromWideArr us).map lenHex)
+      | none => "bad-op"
     | ["sblk", lo, cnt] => match lo.toNat?, cnt.toNat? with
       | some lo, some cnt => scalarBlock lo cnt | _, _ => "bad-op"
     | ["bblk", h, a] => match unhex h with
